@@ -583,6 +583,16 @@ func (e *Env) Exec(op Op) Result {
 		return res(err, strings.Join(m, ","))
 	case "WalkDir":
 		return e.walk(op)
+	case "Sub":
+		sub, err := v.Sub(op.P)
+		if err == nil && sub != nil {
+			// the view is used once: what it shows of its own root.
+			_, serr := sub.Stat(string(sub.PathSeparator()))
+
+			return res(nil, "root:"+ErrClass(serr))
+		}
+
+		return res(err, "")
 	case "Exists":
 		ok, err := avfs.Exists(v, op.P)
 
